@@ -37,6 +37,12 @@ def run(ctx, prop=PROP, judge=None, what=WHAT):
         for items in (["A" + hexs(s)], ["A" + hexs(s[i:i + 1000]) for i in range(0, len(s), 1000)]):
             cases.append("out o 0 %s %s" % (hexs(b"n1"), "/".join(items + ["E"])))
             meta.append((s, b"n1", 0, "o"))
+    # long lines that get shorter: the copy of a line is made in freshly obtained memory that an earlier, longer line has used
+    for L1, L2 in ((131000, 99000), (120000, 98400)):
+        s = bytes([65 + (i % 26) for i in range(L1)]) + b"\n" + bytes([97 + (i % 23) for i in range(L2)]) + b"\nend\n"
+        for lab in (0, 1):
+            cases.append("out o %d %s %s" % (lab, hexs(b"n1"), "/".join(["A" + hexs(s[i:i + 40000]) for i in range(0, len(s), 40000)] + ["E"])))
+            meta.append((s, b"n1", lab, "o"))
     if not quick:
         # exhaustive: every chunking of every stream of length <= 7 over {a, \n}
         import itertools
